@@ -1,15 +1,20 @@
 \* C04 open-tunnel dispatcher: the complete product
-\*   identity (5: none = no handshake, noneHs = failed handshake) x credential (6: the five of the
-\*   statement + otherId = id of another, own, mapping) x mapping state (5) x tunnel state at
+\*   identity (5: none = no handshake, noneHs = failed handshake) x credential (7: the five of the
+\*   statement + otherId = id of another mapping the stranger listens on + otherSecret = id and
+\*   secret of a third mapping the stranger is the target of) x mapping state (5) x tunnel state at
 \*   arrival (TSTATES; "remote" needs two nodes) x arrival order (2)
-\* = 5*6*5*4*2 = 1200 cells (900 without "remote"), each a deterministic run of <= 5 steps.
+\* = 5*7*5*4*2 = 1400 cells, plus the late classes (tunnel registered while the request is being
+\* served: lateLocal, lateRemote; request first, mapping active) 5*7*2 = 70 cells; each cell is a
+\* deterministic run of <= 6 steps.
+\* FIXES also knows "bindMappingPoll" (second half of patches/C04-3: the comparison on the record
+\* found while polling).
 \* FIXES / MASKED:  {} / TRUE  = tunnox-core as found (invariants hold "or a named deviation fired")
-\*                  {"validateJoin", "secretValidity", "bindMapping"} / FALSE = with patches/C04-1..3 (strict)
+\*                  {"validateJoin", "secretValidity", "bindMapping", "bindMappingPoll"} / FALSE = with patches/C04-1..3 (strict)
 \* EMIT = TRUE prints one behaviour per cell (generation).
 CONSTANTS
   FIXES = @@FIXES@@
   Idents = {"none", "noneHs", "listen", "target", "stranger"}
-  Creds = {"idOnly", "rightSecret", "wrongSecret", "resume", "nothing", "otherId"}
+  Creds = {"idOnly", "rightSecret", "wrongSecret", "resume", "nothing", "otherId", "otherSecret"}
   MStates = {"active", "revoked", "expired", "inactive", "missing"}
   TStates = @@TSTATES@@
   Orders = {"legitFirst", "reqFirst"}
